@@ -29,6 +29,11 @@ pub enum Step {
     /// create and write leaves) or overwritten with an HTML error page (how = 1: a foreign writer). Neither
     /// parses as an answer, so the cache holds nothing usable: the next query must go to the network.
     PoisonCache { how: u8 },
+    /// a query for ANOTHER endpoint through the same client and cache (versions <-> cdns of the same product, ...):
+    /// the endpoints serve different documents for it. Judged: an answer carries the rows served for THAT
+    /// endpoint (never the first endpoint's, cached or not); and the first endpoint's cached answer is unharmed
+    /// (the ordinary checks of the following queries).
+    QueryOther,
 }
 
 #[derive(Clone, Debug, Serialize, Deserialize)]
@@ -90,6 +95,22 @@ fn ttl_of(endpoint: &str) -> u64 {
 }
 fn tcp_only(endpoint: &str) -> bool {
     endpoint.starts_with("v1/summary") || endpoint.starts_with("v1/certs/") || endpoint.starts_with("v1/ocsp/")
+}
+
+/// The second endpoint of a run (Step::QueryOther): same product where there is one, another class.
+fn other_endpoint(ep: &str) -> &'static str {
+    match ep {
+        "v1/products/wow/versions" => "v1/products/wow/cdns",
+        "v1/products/wow_classic/cdns" => "v1/products/wow_classic/versions",
+        "v1/certs/abcdef0123" => "v1/summary",
+        _ => "v1/products/wow/versions",
+    }
+}
+/// What tells a request for the second endpoint from one for the first: its last two path segments.
+fn tail_of(ep: &str) -> String {
+    let mut t: Vec<&str> = ep.rsplit('/').take(2).collect();
+    t.reverse();
+    t.join("/")
 }
 
 /// A generated BPSV document (text form, LF line endings).
@@ -216,7 +237,7 @@ impl Scenario for Failover {
         "exploration"
     }
     fn rule(&self) -> &'static str {
-        "Per run: a behaviour for each of the three endpoints (TACT HTTPS, TACT HTTP, Ribbit TCP) out of {valid BPSV, valid V1 MIME (two disposition styles; with and without the detached signature part the official service appends, disposition 'version' or the endpoint class), valid V2 text, V2 text with a blank line, 500/502/503/504, 429 with/without Retry-After, 400/403/404, 200 with malformed/empty body, refused, reset, closed before/mid response, stall}, an endpoint class (versions/cdns/bgdl/TCP-only summary+certs/other), memory or disk protocol cache, a TCP segmentation policy, a document size class (up to 4 rows; one run in ten 150-400 rows = 10-40 KiB, or one 9000-byte value, or a header line over 512 bytes), and a script of 1-6 steps Query | Advance(before/after the class's TTL) | NewClient(same cache dir) | SwapBehaviours | (one disk-cache run in six) PoisonCache = every file under the cache directory left empty or overwritten with an HTML page, after which nothing usable is cached and a query must walk the chain again, on the real RibbitTactClient over the simulated network under the virtual clock. Oracle: executable decision table (request log = prefix of [https,http,tcp] stopping at the first well-formed answer or definitive refusal; Ok iff that endpoint answered, document equal to what it served; cached answers produce zero network events until the TTL, at least one after; failures are never cached), and the same script repeated under other segmentations must give identical outcomes. One run in eight is a CDN run instead (scen/cdn.rs): the real CdnClient (download / download_archive_index) + ProtocolCache (memory or disk) over the simulated HTTP transport; a script of 1-7 steps Download(key, content type, per-request behaviour queue) | Index | Advance(around the configured TTLs) | NewClient(same directory); the host answers the successive requests of a download from the queue {ok, 5xx x8, 429 with no / 0 / 1 / 7 / unparsable (word, HTTP date, 2^64, negative, fractional) Retry-After, 400/403/404/410, refused, reset, client time-out, body reset, body stall}. C13's oracles there: a download within the smallest configured TTL of a successful one sends no request and returns the same bytes (also by a new client on the same directory), after the largest TTL it sends one, a failed download is never served from the cache, every request names the caller's object, bytes equal what was served, a broken body is never Ok. Non-trivial = >= 2 queries or >= 1 fail-over; faults counted when they fire; distinct = hash of (case, request log, outcomes)."
+        "Per run: a behaviour for each of the three endpoints (TACT HTTPS, TACT HTTP, Ribbit TCP) out of {valid BPSV, valid V1 MIME (two disposition styles; with and without the detached signature part the official service appends, disposition 'version' or the endpoint class), valid V2 text, V2 text with a blank line, 500/502/503/504, 429 with/without Retry-After, 400/403/404, 200 with malformed/empty body, refused, reset, closed before/mid response, stall}, an endpoint class (versions/cdns/bgdl/TCP-only summary+certs/other), memory or disk protocol cache, a TCP segmentation policy, a document size class (up to 4 rows; one run in ten 150-400 rows = 10-40 KiB, or one 9000-byte value, or a header line over 512 bytes), and a script of 1-6 steps Query | Advance(before/after the class's TTL) | NewClient(same cache dir) | SwapBehaviours | (one run in four) QueryOther = a query for a second endpoint through the same client and cache, for which the endpoints serve other documents: its answer must carry THOSE rows, and the first endpoint's cached answer must survive it | (one disk-cache run in six) PoisonCache = every file under the cache directory left empty or overwritten with an HTML page, after which nothing usable is cached and a query must walk the chain again, on the real RibbitTactClient over the simulated network under the virtual clock. Oracle: executable decision table (request log = prefix of [https,http,tcp] stopping at the first well-formed answer or definitive refusal; Ok iff that endpoint answered, document equal to what it served; cached answers produce zero network events until the TTL, at least one after; failures are never cached), and the same script repeated under other segmentations must give identical outcomes. One run in eight is a CDN run instead (scen/cdn.rs): the real CdnClient (download / download_archive_index) + ProtocolCache (memory or disk) over the simulated HTTP transport; a script of 1-7 steps Download(key, content type, per-request behaviour queue) | Index | Advance(around the configured TTLs) | NewClient(same directory); the host answers the successive requests of a download from the queue {ok, 5xx x8, 429 with no / 0 / 1 / 7 / unparsable (word, HTTP date, 2^64, negative, fractional) Retry-After, 400/403/404/410, refused, reset, client time-out, body reset, body stall}. C13's oracles there: a download within the smallest configured TTL of a successful one sends no request and returns the same bytes (also by a new client on the same directory), after the largest TTL it sends one, a failed download is never served from the cache, every request names the caller's object, bytes equal what was served, a broken body is never Ok. Non-trivial = >= 2 queries or >= 1 fail-over; faults counted when they fire; distinct = hash of (case, request log, outcomes)."
     }
     fn assumptions(&self) -> Vec<&'static str> {
         vec![
@@ -298,6 +319,14 @@ impl Scenario for Failover {
         };
         // drawn after everything else: one disk-cache run in six has its cache files emptied / overwritten once
         let mut case = case;
+        // ... one run in four asks for a second endpoint somewhere after the first query
+        if case.cdn.is_none() && rng.chance(1, 4) {
+            let at = rng.range(1, case.script.len() as u64) as usize;
+            case.script.insert(at.min(case.script.len()), Step::QueryOther);
+            if rng.chance(1, 2) {
+                case.script.push(Step::Query);
+            }
+        }
         // ... and one run in ten serves large documents (never cut into single bytes: 40 000 segments per answer)
         if rng.chance(1, 10) {
             case.big_doc = *rng.pick(&[1u8, 1, 2, 3]);
@@ -401,19 +430,21 @@ fn tcp_bytes(b: &str, doc: &str) -> Vec<u8> {
     }
 }
 
-fn install(net: &Network, b: &Arc<std::sync::Mutex<Behaviours>>, docs: [String; 3]) {
+fn install(net: &Network, b: &Arc<std::sync::Mutex<Behaviours>>, docs: [String; 3], other_docs: [String; 3], other_tail: String) {
     for (i, host) in ["https://sim-https.test", "http://sim-http.test"].iter().enumerate() {
         let b2 = b.clone();
         let doc = docs[i].clone();
+        let odoc = other_docs[i].clone();
+        let otail = other_tail.clone();
         let net2 = net.clone();
         net.script_http(
             host,
-            Arc::new(move |_host: String, _path: String| {
+            Arc::new(move |_host: String, path: String| {
                 let name = {
                     let g = b2.lock().unwrap_or_else(std::sync::PoisonError::into_inner);
                     if i == 0 { g.https.clone() } else { g.http.clone() }
                 };
-                let doc = doc.clone();
+                let doc = if path.ends_with(&otail) { odoc.clone() } else { doc.clone() };
                 let net3 = net2.clone();
                 Box::pin(async move {
                     let status = match name.as_str() {
@@ -445,12 +476,16 @@ fn install(net: &Network, b: &Arc<std::sync::Mutex<Behaviours>>, docs: [String; 
     }
     let b2 = b.clone();
     let doc = docs[2].clone();
+    let odoc = other_docs[2].clone();
+    let oep = other_tail;
     let net2 = net.clone();
     net.script_tcp(
         "sim-tcp.test:1119",
         Arc::new(move |mut end: End, addr: String| {
             let name = b2.lock().unwrap_or_else(std::sync::PoisonError::into_inner).tcp.clone();
             let doc = doc.clone();
+            let odoc = odoc.clone();
+            let oep = oep.clone();
             let net3 = net2.clone();
             Box::pin(async move {
                 // read the request line (until LF or EOF)
@@ -468,6 +503,7 @@ fn install(net: &Network, b: &Arc<std::sync::Mutex<Behaviours>>, docs: [String; 
                     }
                 }
                 net3.event(&addr, format!("request {:?}", String::from_utf8_lossy(&req).trim()));
+                let doc = if String::from_utf8_lossy(&req).trim().ends_with(&oep) { odoc.clone() } else { doc };
                 let bytes = tcp_bytes(&name, &doc);
                 match name.as_str() {
                     "close_before" => {
@@ -576,7 +612,9 @@ async fn run_script(case: &Case, seg: &str, docs: &[String; 3], ctx: &mut Ctx, v
     let net = Network::new(case.net_seed ^ (variant as u64).wrapping_mul(0xABCD_EF01));
     net.set_policies(SegPolicy::Whole, seg_of(seg));
     let behaviours = Arc::new(std::sync::Mutex::new(Behaviours { https: case.https.clone(), http: case.http.clone(), tcp: case.tcp.clone() }));
-    install(&net, &behaviours, docs.clone());
+    let other_ep = other_endpoint(&case.endpoint);
+    let other_docs = [gen_doc(case.doc_seed, 11, 0), gen_doc(case.doc_seed, 12, 0), gen_doc(case.doc_seed, 13, 0)];
+    install(&net, &behaviours, docs.clone(), other_docs.clone(), tail_of(other_ep));
     cascette_protocol::verif_hooks::install_net(Some(Arc::new(net.clone())));
     cascette_protocol::verif_hooks::install_http(Some(Arc::new(net.clone())));
     let cache_dir = ctx.root.join(format!("pcache{variant}"));
@@ -669,6 +707,25 @@ async fn run_script(case: &Case, seg: &str, docs: &[String; 3], ctx: &mut Ctx, v
                 }
                 if primary {
                     ctx.event(|| json!({"k":"fault","fault":"poison_cache_files","how":how,"files":n}));
+                }
+                outcomes.push(Outcome::Other);
+            }
+            Step::QueryOther => {
+                let before = net.log_len();
+                let res = tokio::time::timeout(Duration::from_secs(600), client.query(other_ep)).await;
+                seams::advance_to_at_least(t_start.elapsed().as_nanos() as u64);
+                let _ = before;
+                let _ = net.take_log();
+                if primary {
+                    ctx.event(|| json!({"k":"op","op":"query_other_endpoint","endpoint":other_ep,"ret":match &res { Ok(Ok(d)) => format!("Ok({} rows)", d.rows().len()), Ok(Err(e)) => format!("Err({e})"), Err(_) => "no completion".into() }}));
+                    ctx.count("queries_for_a_second_endpoint");
+                }
+                if let Ok(Ok(d)) = &res {
+                    let got: Vec<Vec<String>> = d.rows().iter().map(|r| r.raw_values().to_vec()).collect();
+                    if !other_docs.iter().any(|od| plain_rows(od) == got) {
+                        let first = docs.iter().any(|dd| plain_rows(dd) == got);
+                        viol!("answer_for_another_endpoint", if first { ",rows=first_endpoints" } else { "" }, format!("step #{i}: query({other_ep:?}) through a client that had been asked for {:?} returned {} rows that are not what any endpoint serves for {other_ep:?}{}", case.endpoint, got.len(), if first { " - they are the rows served for the FIRST endpoint" } else { "" }));
+                    }
                 }
                 outcomes.push(Outcome::Other);
             }
